@@ -39,26 +39,77 @@ theorem add_node_consistent (s s' : H) (node : NRef) (nid : Option Int) (af : Na
 /-- an id in use is rejected with `ValueError` -/
 theorem add_node_rejects_duplicate_id (s : H) (node : NRef) (k : Int) (r : NRef)
     (h : graph_get_node_by_id s k = some r) : graph_add_node s node (some k) = .error .valueError := by
-  have hm : addNode (absS s node 0) (absN (s.n node)) (some k) = .error .valueError :=
-    MalVerif.C09.addNode_rejects_duplicate_id _ _ k r (by rw [← get_node_by_id_tie]; exact h)
-  cases hres : graph_add_node s node (some k) with
-  | ok s' => rw [add_node_tie s s' node (some k) 0 hres] at hm; cases hm
-  | error e => rw [(add_node_error s node (some k) 0 e hres).1]
+  rw [TG.graph_add_node_eq]
+  split
+  · rfl
+  · have : dictIn s._id_to_node (TG.anKey s (some k)) = true := by
+      rw [TG.dictIn_eq_dget]
+      show (dget s._id_to_node k).isSome = true
+      rw [← TG.dictGet_eq_dget]
+      exact (congrArg Option.isSome h :)
+    rw [if_pos this]
 
 /-- `add_node` raises nothing but that `ValueError` -/
 theorem add_node_raises_only_valueError (s : H) (node : NRef) (nid : Option Int) (e : PyErr)
     (h : graph_add_node s node nid = .error e) : e = .valueError :=
   (add_node_error s node nid 0 e h).1
 
-/-- with a generated id `add_node` never fails in a consistent graph -/
+/-- with a generated id `add_node` never fails in a consistent graph (`node`: the next free reference, i.e. an
+object that is not part of the graph) -/
 theorem add_node_auto_id_ok (s : H) (node : NRef) (af : Nat) (hc : Consistent (absS s node af)) :
     ∃ s', graph_add_node s node none = .ok s' := by
   cases hres : graph_add_node s node none with
   | ok s' => exact ⟨s', rfl⟩
   | error e =>
     obtain ⟨s', hs'⟩ := MalVerif.C09.addNode_auto_id_ok (absS s node af) (absN (s.n node)) hc
-    rw [(add_node_error s node none af e hres).2] at hs'
-    cases hs'
+    rcases (add_node_error s node none af e hres).2 with hp | he
+    · rw [nodeIsPart_fresh s node af hc] at hp; cases hp
+    · rw [he] at hs'; cases hs'
+
+/-- (b653290) a node object that is already part of the graph — it is in the node list and has its id — is
+rejected with `ValueError`, whatever `node_id` is passed: it cannot be listed twice or get a second id -/
+theorem add_node_rejects_member (s : H) (node : NRef) (nid : Option Int) (nf af : Nat)
+    (hc : Consistent (absS s nf af)) (hm : node ∈ s.nodes) (hid : (s.n node).id.isSome) :
+    graph_add_node s node nid = .error .valueError :=
+  add_node_rejects_part s node nid (nodeIsPart_member s node nf af hc hm hid)
+
+/-- … stated without the invariant: the guard is `node.id is not None and _id_to_node.get(node.id) is node` -/
+theorem add_node_rejects_indexed (s : H) (node : NRef) (nid : Option Int) (k : Int)
+    (hid : (s.n node).id = some k) (hidx : graph_get_node_by_id s k = some node) :
+    graph_add_node s node nid = .error .valueError :=
+  add_node_rejects_part s node nid ((TG.nodeIsPart_iff s node).2 ⟨k, hid, hidx⟩)
+
+/-- a freshly constructed node object (`id` is `None`) passes that guard: it is rejected iff the id is in use -/
+theorem add_node_fresh_raises_iff (s : H) (node : NRef) (nid : Option Int) (hid : (s.n node).id = none) :
+    (∃ e, graph_add_node s node nid = .error e) ↔
+      (graph_get_node_by_id s (nid.getD s.next_node_id)).isSome = true := by
+  rw [TG.graph_add_node_eq, if_neg (by rw [TG.nodeIsPart_of_id_none s node hid]; decide), TG.dictIn_eq_dget,
+    TG.anKey_eq]
+  show _ ↔ (dictGet s._id_to_node _).isSome = true
+  rw [TG.dictGet_eq_dget]
+  split
+  · next h => exact ⟨fun _ => h, fun _ => ⟨_, rfl⟩⟩
+  · next h => exact ⟨fun ⟨_, h'⟩ => (by cases h'), fun h' => absurd h' h⟩
+
+/-- the same node object twice: the second `add_node` is rejected and (an exception carries no heap) the graph
+stays as the first call left it -/
+theorem add_node_twice_rejected (s s' : H) (node : NRef) (nid nid' : Option Int)
+    (h : graph_add_node s node nid = .ok s') : graph_add_node s' node nid' = .error .valueError := by
+  rw [TG.graph_add_node_eq] at h
+  split at h
+  · cases h
+  split at h
+  · cases h
+  · injection h with h
+    subst h
+    refine add_node_rejects_indexed _ node nid' (TG.anKey s nid) ?_ ?_
+    · show (if node = node then _ else _ : PyNode).id = _
+      rw [if_pos rfl]
+    · show dictGet (dictSet s._id_to_node (optIntGet ((TG.anSt s node (TG.anKey s nid)).n node).id) node) _ = _
+      have : optIntGet ((TG.anSt s node (TG.anKey s nid)).n node).id = TG.anKey s nid := by
+        show optIntGet (if node = node then _ else _ : PyNode).id = _
+        rw [if_pos rfl]; rfl
+      rw [this, TG.dictSet_eq_dset, TG.dictGet_eq_dget, dget_dset, if_pos rfl]
 
 /-- the name index stays exact if the new full name is unused -/
 theorem add_node_namesExact (s s' : H) (node : NRef) (nid : Option Int) (af : Nat)
@@ -129,6 +180,111 @@ theorem add_attacker_consistent (s s' : H) (a : ARef) (aid : Option Int) (entry 
     (h : graph_add_attacker s a aid entry reached = .ok s') : Consistent (absS s' nf (a + 1)) :=
   MalVerif.C09.addAttacker_consistent hc (add_attacker_tie s s' a aid entry reached nf hfresh h)
 
+/-- what makes `add_attacker` raise — read off the heap the call STARTS with: the attacker object is already part
+of the graph (b653290), the id to assign is in use, or some id of `reached_attack_steps` / `entry_points` names
+no node of the graph -/
+def AddAttackerRejects (s : H) (a : ARef) (aid : Option Int) (entry reached : List Int) : Prop :=
+  (∃ k, (s.a a).id = some k ∧ graph_get_attacker_by_id s k = some a) ∨
+  (graph_get_attacker_by_id s (aid.getD s.next_attacker_id)).isSome = true ∨
+  (∃ i ∈ reached, graph_get_node_by_id s i = none) ∨ (∃ i ∈ entry, graph_get_node_by_id s i = none)
+
+theorem addAttackerRejects_iff (s : H) (a : ARef) (aid : Option Int) (entry reached : List Int) :
+    AddAttackerRejects s a aid entry reached ↔ aaRejects s a aid entry reached := by
+  unfold AddAttackerRejects aaRejects
+  rw [TG.attIsPart_iff, TG.dictIn_eq_dget, TG.aaKey_eq]
+  show _ ∨ (dictGet s._id_to_attacker _).isSome = true ∨ _ ↔ _
+  rw [TG.dictGet_eq_dget]
+  rfl
+
+/-- (b507c7f) `add_attacker` is atomic: the translated function raises iff `AddAttackerRejects` holds of the
+INITIAL heap — every `raise` is decided before the first write (the id check and the lookups of ALL node ids only
+read the graph), so a rejected call cannot have compromised a node or given the attacker an id; and when the
+condition does not hold the call returns.  (With `Except`, a raising call has no heap to return: what this
+theorem adds is that raising does not depend on anything the call itself has written.) -/
+theorem add_attacker_atomic (s : H) (a : ARef) (aid : Option Int) (entry reached : List Int) :
+    ((∃ err, graph_add_attacker s a aid entry reached = .error err) ↔ AddAttackerRejects s a aid entry reached) ∧
+    (¬ AddAttackerRejects s a aid entry reached → ∃ s', graph_add_attacker s a aid entry reached = .ok s') := by
+  rw [addAttackerRejects_iff]
+  refine ⟨add_attacker_raises_iff s a aid entry reached, fun hn => ?_⟩
+  cases h : graph_add_attacker s a aid entry reached with
+  | ok s' => exact ⟨s', rfl⟩
+  | error err => exact absurd ((add_attacker_raises_iff s a aid entry reached).1 ⟨err, h⟩) hn
+
+/-- which exception a rejected `add_attacker` raises: `ValueError` (already part of the graph / id in use) is
+decided before any node id is looked at, `AttackGraphException` otherwise -/
+theorem add_attacker_error_kind (s : H) (a : ARef) (aid : Option Int) (entry reached : List Int) (err : PyErr)
+    (h : graph_add_attacker s a aid entry reached = .error err) :
+    err = .valueError ∨ (err = .attackGraphException ∧
+      ((∃ i ∈ reached, graph_get_node_by_id s i = none) ∨ (∃ i ∈ entry, graph_get_node_by_id s i = none))) := by
+  rcases Tie.add_attacker_error_kind s a aid entry reached err h with ⟨he, _⟩ | ⟨he, _, _, hu⟩
+  · exact Or.inl he
+  · exact Or.inr ⟨he, hu⟩
+
+/-- (b653290) an attacker object that is already part of the graph — it is in the attacker list and has its id —
+is rejected with `ValueError`, whatever id / node ids are passed -/
+theorem add_attacker_rejects_member (s : H) (a : ARef) (aid : Option Int) (entry reached : List Int) (nf af : Nat)
+    (hc : Consistent (absS s nf af)) (hm : a ∈ s.attackers) (hid : (s.a a).id.isSome) :
+    graph_add_attacker s a aid entry reached = .error .valueError :=
+  add_attacker_rejects_part s a aid entry reached (attIsPart_member s a nf af hc hm hid)
+
+/-- a freshly constructed attacker object (`id` is `None`) passes that guard -/
+theorem add_attacker_fresh_raises_iff (s : H) (a : ARef) (aid : Option Int) (entry reached : List Int)
+    (hid : (s.a a).id = none) :
+    (∃ err, graph_add_attacker s a aid entry reached = .error err) ↔
+      ((graph_get_attacker_by_id s (aid.getD s.next_attacker_id)).isSome = true ∨
+       (∃ i ∈ reached, graph_get_node_by_id s i = none) ∨ (∃ i ∈ entry, graph_get_node_by_id s i = none)) := by
+  rw [(add_attacker_atomic s a aid entry reached).1]
+  unfold AddAttackerRejects
+  constructor
+  · rintro (⟨k, hk, _⟩ | h)
+    · rw [hid] at hk; cases hk
+    · exact h
+  · exact Or.inr
+
+/-- in a consistent graph, `add_attacker` of a freshly constructed attacker (allocated at the next free
+reference) either is rejected — by a condition on the graph as it is — or returns a consistent graph in which
+the attacker is registered under the id asked for -/
+theorem add_attacker_rejected_or_consistent (s : H) (a : ARef) (aid : Option Int) (entry reached : List Int)
+    (nf : Nat) (hc : Consistent (absS s nf a))
+    (hfresh : (s.a a).entry_points = [] ∧ (s.a a).reached_attack_steps = []) :
+    (AddAttackerRejects s a aid entry reached ∧ ∃ err, graph_add_attacker s a aid entry reached = .error err) ∨
+    (∃ s', graph_add_attacker s a aid entry reached = .ok s' ∧ Consistent (absS s' nf (a + 1)) ∧
+      a ∈ s'.attackers ∧ graph_get_attacker_by_id s' (aid.getD s.next_attacker_id) = some a) := by
+  cases h : graph_add_attacker s a aid entry reached with
+  | error err => exact Or.inl ⟨((add_attacker_atomic s a aid entry reached).1).1 ⟨err, h⟩, err, rfl⟩
+  | ok s' =>
+    refine Or.inr ⟨s', rfl, add_attacker_consistent s s' a aid entry reached nf hc hfresh h, ?_⟩
+    rw [TG.graph_add_attacker_eq] at h
+    split at h
+    · cases h
+    split at h
+    · cases h
+    cases hr : TG.aaResolve s reached with
+    | none => rw [hr] at h; cases h
+    | some rn =>
+      cases he : TG.aaResolve s entry with
+      | none => rw [hr, he] at h; cases h
+      | some en =>
+        rw [hr, he] at h
+        injection h with h
+        subst h
+        have hidk : ∀ t : H, (t.a a).id = some (TG.aaKey s aid) →
+            ((List.foldl (TG.aaPush a) (List.foldl (TG.aaComp a) t rn) en).a a).id = some (TG.aaKey s aid) := by
+          intro t ht
+          refine foldl_inv (fun u : H => (u.a a).id = some (TG.aaKey s aid)) _ _ _ (fun u n _ hu => ?_) ?_
+          · show (if a = a then _ else _ : PyAttacker).id = _
+            rw [if_pos rfl]; exact hu
+          · refine foldl_inv (fun u : H => (u.a a).id = some (TG.aaKey s aid)) _ _ _ (fun u n _ hu => ?_) ht
+            rw [show TG.aaComp a u n = attacker_compromise u a n from rfl, TG.compromise_aid]; exact hu
+        have hk := hidk (TG.aaS1 s a (TG.aaKey s aid)) (by
+          show (if a = a then _ else _ : PyAttacker).id = _
+          rw [if_pos rfl])
+        refine ⟨List.mem_append_right _ (List.mem_singleton.2 rfl), ?_⟩
+        show dictGet (dictSet _ (optIntGet _) a) _ = some a
+        rw [hk, ← TG.aaKey_eq, TG.dictSet_eq_dset, TG.dictGet_eq_dget]
+        show dget (dset _ (TG.aaKey s aid) a) (TG.aaKey s aid) = some a
+        rw [dget_dset, if_pos rfl]
+
 theorem remove_attacker_consistent (s s' : H) (a : ARef) (nf af : Nat) (hc : Consistent (absS s nf af))
     (ha : a ∈ s.attackers) (h : graph_remove_attacker s a = .ok s') : Consistent (absS s' nf af) := by
   rw [remove_attacker_tie s s' a nf af h]
@@ -196,5 +352,47 @@ example : ∃ s1 s2 s3, graph_add_node {} 0 none = .ok s1 ∧ graph_add_node s1 
     add_node_rejects_duplicate_id _ 2 1 1 rfl⟩
   · rw [(remove_node_keeps_rest _ _ 0 2 0 c2 hm e3).1]; rfl
   · exact (remove_node_leaves_no_trace _ _ 0 2 0 c2 hm e3).2.2.2.2.2.1
+
+/-- the repaired guards and the atomic `add_attacker` on a concrete heap: two nodes (ids 0, 1); adding node object
+0 again is rejected (with and without an explicit id); an attacker whose reached steps are `[0, 5]` — 0 exists, 5
+does not — is rejected with `AttackGraphException` (`AddAttackerRejects` holds of the heap); with `[0]` / `[1]` it is
+added, the heap is consistent, and adding the same attacker object again is rejected -/
+example : ∃ s2 s3, graph_add_node (TG.anSt {} 0 0) 1 none = .ok s2 ∧
+    graph_add_node s2 0 none = .error .valueError ∧ graph_add_node s2 0 (some 7) = .error .valueError ∧
+    graph_add_attacker s2 0 none [] [0, 5] = .error .attackGraphException ∧
+    graph_add_attacker s2 0 none [1, 5] [0] = .error .attackGraphException ∧
+    AddAttackerRejects s2 0 none [] [0, 5] ∧ ¬ AddAttackerRejects s2 0 none [1] [0] ∧
+    graph_add_attacker s2 0 none [1] [0] = .ok s3 ∧ Consistent (absS s3 2 1) ∧
+    (s3.n 0).compromised_by = [0] ∧ (s3.a 0).entry_points = [1] ∧
+    graph_add_attacker s3 0 none [] [] = .error .valueError ∧
+    graph_add_attacker s3 0 (some 4) [] [] = .error .valueError := by
+  have e1 : graph_add_node {} 0 none = .ok (TG.anSt {} 0 0) := rfl
+  have e2 : graph_add_node (TG.anSt {} 0 0) 1 none = .ok (TG.anSt (TG.anSt {} 0 0) 1 1) := rfl
+  have c1 := add_node_consistent _ _ 0 none 0 init_consistent ⟨rfl, rfl, rfl⟩ e1
+  have c2 := add_node_consistent _ _ 1 none 0 c1 ⟨rfl, rfl, rfl⟩ e2
+  have hm : (0 : NRef) ∈ (TG.anSt (TG.anSt {} 0 0) 1 1).nodes := by decide
+  have hnr : ¬ AddAttackerRejects (TG.anSt (TG.anSt {} 0 0) 1 1) 0 none [1] [0] := by
+    rintro (⟨k, hk, _⟩ | h | ⟨i, hi, h⟩ | ⟨i, hi, h⟩)
+    · cases hk
+    · cases h
+    · rw [List.mem_singleton.1 hi] at h; cases h
+    · rw [List.mem_singleton.1 hi] at h; cases h
+  obtain ⟨s3, e3⟩ := (add_attacker_atomic _ 0 none [1] [0]).2 hnr
+  have c3 := add_attacker_consistent _ s3 0 none [1] [0] 2 c2 ⟨rfl, rfl⟩ e3
+  have e3' : graph_add_attacker (TG.anSt (TG.anSt {} 0 0) 1 1) 0 none [1] [0] =
+      .ok (TG.aaApply (TG.anSt (TG.anSt {} 0 0) 1 1) 0 0 [0] [1]) := by
+    rw [TG.graph_add_attacker_eq]; rfl
+  have hs3 : s3 = TG.aaApply (TG.anSt (TG.anSt {} 0 0) 1 1) 0 0 [0] [1] := by
+    rw [e3'] at e3; injection e3 with e3; exact e3.symm
+  have hma : (0 : ARef) ∈ s3.attackers := by rw [hs3]; decide
+  have hid : (s3.a 0).id.isSome = true := by rw [hs3]; rfl
+  refine ⟨_, s3, e2, add_node_rejects_member _ 0 none 2 0 c2 hm rfl, add_node_rejects_member _ 0 (some 7) 2 0 c2 hm rfl,
+    ?_, ?_, Or.inr (Or.inr (Or.inl ⟨5, by decide, rfl⟩)), hnr, e3, c3, ?_, ?_,
+    add_attacker_rejects_member s3 0 none [] [] 2 1 c3 hma hid,
+    add_attacker_rejects_member s3 0 (some 4) [] [] 2 1 c3 hma hid⟩
+  · rw [TG.graph_add_attacker_eq]; rfl
+  · rw [TG.graph_add_attacker_eq]; rfl
+  · rw [hs3]; rfl
+  · rw [hs3]; rfl
 
 end MalVerif.PropsGen.C09
